@@ -11,7 +11,7 @@ import z3
 from symx.core import (PI_F, TWOPI_F, SBool, SInt, SReal, assume, const_array, cur, eq_arrays, explore, integer, marray, mfloat, mval, real,
                        reals, resume, rv, single_path, slice_for, terms)
 from symx.runner import Ob
-from symx.ext_c04 import Chain, cbrt_pow, explore_inputs_first, fork_sign, sym_arctan
+from symx.ext_c04 import Chain, cbrt_pow, explore_inputs_first, fork_sign, refute_fresh, sym_arctan
 from symx.stubs import shadow, sym_array
 
 ID = "C04"
@@ -58,6 +58,7 @@ ASSUMPTIONS = ["angle algebra for cos/sin; sqrt contract (r >= 0, r^2 = x); arcs
                "numpy.sign -> fork into +1 / -1 / 0", "pi identified with const.PI (the double)",
                "Earth.radius / Earth.eccentricity enter as the exact rational values of their doubles, so sqrt(1 - e^2) is the exact real root (O8)",
                "O4b: rot_pnr / rot_w replaced by symbolic matrices constrained only by the orthogonality proved of the real ones in O4a",
+               "O4a: getRotR's calendar inputs are symbols there (dayOfYear / greenwichApparentTime / utc2TerrestrialTime / nutation replaced), a timedelta shift of the date is ignored",
                "O5: the RSW round trips use 'W (W^T d) = d for every W with W W^T = I' proved on a symbolic matrix; the real matrix's orthonormality is proved entry-wise",
                "O7b/O7e: utc_date is a model object with the calendar fields (year concrete per obligation, the rest z3 Ints); utc_date + timedelta(seconds=x) is civil-calendar arithmetic "
                "with carries by forking and the nearest-microsecond contract; the rotation angle is read from the argument of rot3",
@@ -201,6 +202,18 @@ class _Eops:
         self.length_of_day = real("lod")
 
 
+class _TdIgnore:
+    """O4a only: a timedelta whose addition leaves the datetime unchanged - the calendar functions that would read the shifted fields are replaced by symbols there"""
+
+    def __init__(self, *a, **k):
+        pass
+
+    def __radd__(self, other):
+        return other
+
+    __rsub__ = __radd__
+
+
 def _build_real():
     """Run the real ReductionParams.build on symbolic angles (time series replaced by symbols)."""
     from resonaate.physics.transforms import reductions as RD
@@ -209,7 +222,7 @@ def _build_real():
     gast = real("gast")
     with shadow(RD, utc2TerrestrialTime=lambda *a: (real("jd_tt"), ttt),
                 _getNutationParameters=lambda t, a, b, num=2: (real("dpsi"), real("teps"), real("meps"), real("eqe")),
-                dayOfYear=lambda *a: real("doy"), greenwichApparentTime=lambda *a: gast):
+                dayOfYear=lambda *a: real("doy"), greenwichApparentTime=lambda *a: gast, timedelta=_TdIgnore):
         return RD.ReductionParams.build(_dt.datetime(2020, 3, 1, 12, 0, 5), eops=_Eops())
 
 
@@ -392,8 +405,6 @@ def o5_rsw(rep):
         ent = [(i_, j) for i_ in range(3) for j in range(i_, 3)]
         hy_r = [W.dot(W.T)[i_, j].t == (1 if i_ == j else 0) for i_, j in ent]
         hy_c = [W.T.dot(W)[i_, j].t == (1 if i_ == j else 0) for i_, j in ent]
-        with shadow(T, array=sym_array):
-            zz = T.rsw2eci(x, z)
         d6 = y - x
         for part, sl in (("r", slice(0, 3)), ("v", slice(3, 6))):
             g1 = eq_arrays(back[sl], R_.dot(R_.T.dot(d6[sl])))
@@ -580,6 +591,12 @@ class _Td:
             k = cur().new("td_us", "int")
             assume(z3.ToReal(k) - rv(Fraction(1, 2)) < ts, ts < z3.ToReal(k) + rv(Fraction(1, 2)))
             self.us = SInt(k)
+
+
+    def __radd__(self, other):
+        if isinstance(other, _dt.datetime):  # a real datetime met by the code under analysis (O4a): continue in the model
+            return _Utc(other.year, other.month, other.day, other.hour, other.minute, other.second, other.microsecond) + self
+        return NotImplemented
 
 
 class _Utc:
@@ -1084,9 +1101,6 @@ def o8u_unique(rep):
                           sample=f"lla2ecef injective on |lat|<pi/2, h>=-120 km (second preimage h>=-6000 km): {what} [schema on abstract variables; hypotheses established on the real lla2ecef's terms]")
             else:
                 rep.undecided(name, "proof script stopped: " + "; ".join(f"{n}: {w}" for n, w in ch.failed)[:300])
-        inputs = lambda m: {"p1": [math.atan2(mfloat(m, tr[1][1].t), mfloat(m, tr[1][0].t)), math.atan2(mfloat(m, tr[1][3].t), mfloat(m, tr[1][2].t)), mfloat(m, tr[1][4].t)],  # noqa: E731
-                            "p2": [math.atan2(mfloat(m, tr[2][1].t), mfloat(m, tr[2][0].t)), math.atan2(mfloat(m, tr[2][3].t), mfloat(m, tr[2][2].t)), mfloat(m, tr[2][4].t)]}
-        del inputs
         rep.reachable("two-preimages-hypotheses", [c for c in p.constraints()] + [tr[1][4].t == 10, tr[2][4].t == 10, tr[1][1].t * 2 == 1, tr[2][1].t * 2 == 1, tr[1][2].t == 1, tr[2][2].t == 1], timeout_ms=60000)
 
 
@@ -1461,7 +1475,6 @@ def _geo_domain(rep, tag, r, ch, kw):
     from symx.core import refute
 
     V = ch.V
-    dom_of = {"sD": "dom-sD", "c1": "dom-cbrt", "c2": "dom-cbrt", "s2": "dom-s2", "st": "dom-st", "hy": "dom-hy", "sN": "dom-sN"}
     for sc in ("dom-sD", "dom-hy", "dom-rho"):
         ch.apply(sc)
     pairs = [(arg, target) for (_n, _v, arg, target) in ch.matches]
@@ -1505,8 +1518,8 @@ def _o8_class(cls):
     def o8_geodetic(rep):
         from symx.core import free_vars, refute, solve
 
-        a, e = _earth_consts()
-        A = rv(a)
+        _V, Fa0, S0 = _geo_facts()
+        Chain.start_batch(Fa0, S0)  # the lemma schemas are decided by a clean helper process while the code is being explored
         res = explore_inputs_first(_geo_run(cls), ("ri", "rj", "rk"), max_paths=40, branch_timeout_ms=2500)
         rep.note(f"class {cls}: {len(res)} paths of ecef2lla+lla2ecef")
         n_closed = 0
@@ -1519,7 +1532,6 @@ def _o8_class(cls):
             C = r.constraints
             goals = _geo_goals(r)
             X = [_rt(t) for t in x[:3]]
-            O = [_rt(o) for o in out]
             def direct_stage(to):
                 """decides paths that return an explicit formula (special-case branches); component-wise, the conjunction is much harder for nlsat.
                 Returns True when the path has been dealt with."""
@@ -1595,7 +1607,7 @@ def _o8_class(cls):
                     rep.undecided(f"{tag}:{name}", f"facts not established: {miss}")
                     return
                 if schema not in _GCACHE:
-                    _GCACHE[schema] = refute(z3.And(*[ch.F[c] for c in concl]), [ch.F[h] for h in hyps], 60000)
+                    _GCACHE[schema] = Chain._from_batch(schema) or refute_fresh(z3.And(*[ch.F[c] for c in concl]), [ch.F[h] for h in hyps], 240000)
                 v = _GCACHE[schema]
                 rep._item(f"{tag}:{name}", "prove", v)
                 rep.sample({"obligation": f"{rep.ob}:{tag}:{name}", "verdict": v.status, "what": what + " [instance of a schema proved on abstract variables; its hypotheses are established on the path]"})
@@ -1626,14 +1638,11 @@ def _o8_class(cls):
                     break
             if not got:
                 rep.reachable(f"{tag}:reach", ch.base + pcv, timeout_ms=30000)
+        Chain.stop_batch()
         if n_closed == 0 and not rep.violations and rep.status == "ok":
             rep.error("closed-form", "vacuous: no path went through the closed form")
 
     return o8_geodetic
-
-
-def p_domain(r):
-    return r.path.domain_obligations()
 
 
 REPLAYS = {"O1": replay_rot, "O2": replay_skew, "O3": replay_sez, "O4a": replay_fk5, "O4b": replay_eci}
